@@ -30,7 +30,9 @@ RULE = ("grid cases: b-grid in {1, zero, N, randomQ_N, cube4D_N, fulldiv_8/40} (
         "(N 4..10, thorough ..30), 2-4 radii given as list / linspace / range (incl. shells of a few hundredths of a nm, where borders "
         "are ~1e-3), spherical and Cartesian position mode, factor in {0.5,1,2,3}, path arguments with and without suffix; per-cell "
         "energies from seeded generators (normal, uniform, smooth, wells, large common offset, all equal, a few beyond the 500 kJ/mol "
-        "cap), sigma <= 4 kJ/mol; T in [200,400] K, D log-uniform; solver settings (sigma=None,'LR'), (sigma>0,'SR'/'LM'), "
+        "cap), sigma <= 4 kJ/mol; ramp energies (radial, along the cell index, along graph distance; 9-12 radial layers; range over "
+        "the grid 1e3..1e5 kJ/mol as far as the depth allows, i.e. beyond 708*2RT, with every neighbouring difference below the "
+        "cap; constant offsets +-1e5): finite entries, pattern, row sums and pairwise log-form detailed balance only; T in [200,400] K, D log-uniform; solver settings (sigma=None,'LR'), (sigma>0,'SR'/'LM'), "
         "(sigma<0,'LM'), (None,'SR'), tol in {1e-10,1e-12,0} (strict) and 1e-5 (workflow default; weak clauses only), k = min(12, n-2); "
         "sort cases: crafted complex solver outputs (unsorted, conjugate pairs, ties) pushed through get_decomposition with the solver "
         "stubbed; io cases: random save/load sequences with and without suffixes, collisions, missing files, wrong loader. "
@@ -88,9 +90,45 @@ TAP = _EigsTap()
 # ------------------------------------------------------------------------------------------------
 
 
-def _energies(spec, n):
+RAMP_MODES = ("ramp_radial", "ramp_index", "ramp_bfs")
+
+
+def _ramp_energies(spec, n, G, A, rng):
+    """Energies that rise steadily across the grid: the *range* over the whole grid is huge (target `range`, 1e3 .. 1e5 kJ/mol,
+    as far as the grid's depth allows) while every pair of *neighbouring* cells stays below the 500 kJ/mol cap (step <= 440
+    plus a jitter of +-25), optionally on top of a constant offset of +-1e5 kJ/mol.  exp(-E/RT) is not representable for such
+    sets (the range exceeds 708*RT), so everything is checked pairwise / in log form."""
+    mode, jit, target = spec["mode"], float(spec["sig"]), float(spec["range"])
+    if mode == "ramp_radial":       # level = radial layer of the cell, read off the saved grid
+        r = np.round(np.linalg.norm(np.asarray(G)[:, :3], axis=1), 9)
+        level = np.searchsorted(np.unique(r), r).astype(float)
+    elif mode == "ramp_bfs":        # level = graph distance from a start cell in the saved adjacency
+        from scipy.sparse.csgraph import shortest_path
+        dist = shortest_path(A, unweighted=True, directed=False, indices=int(rng.integers(n)))
+        level = np.where(np.isfinite(dist), dist, 0.0)
+    else:                            # ramp along the cell index
+        level = np.arange(n, dtype=float)
+    if spec.get("down"):
+        level = level.max() - level
+    # largest level difference between neighbouring cells
+    c = A.tocoo()
+    dl = float(np.abs(level[c.row] - level[c.col]).max()) if c.nnz else 1.0
+    depth = max(float(level.max() - level.min()), 1.0)
+    step = min(target / depth, 440.0 / max(dl, 1.0))
+    E = step * level + rng.uniform(-jit, jit, n)
+    # belt and braces: neighbouring cells stay below the cap whatever the geometry
+    if c.nnz:
+        md = float(np.abs(E[c.row] - E[c.col]).max())
+        if md >= 495.0:
+            E = E * (490.0 / md)
+    return E + float(spec.get("offset", 0.0))
+
+
+def _energies(spec, n, G=None, A=None):
     rng = np.random.default_rng([int(spec["seed"]), n])
     mode, sig = spec["mode"], float(spec["sig"])
+    if mode in RAMP_MODES:
+        return _ramp_energies(spec, n, G, A, rng)
     if mode == "zero":
         return np.zeros(n)
     if mode == "normal":
@@ -172,6 +210,34 @@ def _espec(rng):
     return {"mode": mode, "sig": sig, "seed": rng.randrange(10 ** 6)}
 
 
+def _ramp_case(rng, thorough, strong=False):
+    """many radial layers (9..12), small direction / rotation grids, ramp energies; `strong`: range and temperature such that
+    the range certainly exceeds 708*2RT (the point where a per-cell weight exp(-(E-min E)/(2RT)) stops being representable)"""
+    nt = 12 if strong else rng.choice([9, 10, 11, 12])
+    b = rng.choice(["1", "zero", "1"] if strong else ["1", "zero", "1", "4"] + (["cube4D_5", "randomQ_6"] if thorough else []))
+    if b == "4" and not thorough:
+        nt = min(nt, 10)            # keeps n <= 360, where the interpreted model still runs
+    style = rng.choice(["linspace", "range", "list"])
+    if style == "linspace":
+        a = round(rng.uniform(0.15, 0.4), 2)
+        t = f"linspace({a}, {round(a + 0.09 * nt + rng.uniform(0, 0.5), 2)}, {nt})"
+    elif style == "range":
+        a = rng.randint(1, 3)
+        t = f"range({a}, {a + nt})"
+    else:
+        rs = [round(rng.uniform(0.15, 0.4), 2)]
+        for _ in range(nt - 1):
+            rs.append(round(rs[-1] + rng.uniform(0.06, 0.2), 2))
+        t = "[" + ", ".join(repr(x) for x in rs) + "]"
+    o = rng.choice(["8", "ico_9", "cube3D_8", "randomS_10", "ico_12"] if b in ("1", "zero") else ["8", "cube3D_8", "randomS_9"])
+    mode = "ramp_radial" if strong else rng.choice(list(RAMP_MODES))
+    spec = {"mode": mode, "sig": 25.0, "range": float(f"{(1e5 if strong else 10 ** rng.uniform(3, 5)):.4g}"),
+            "offset": rng.choice([0.0, 0.0, 1e5, -1e5]), "down": rng.random() < 0.5, "seed": rng.randrange(10 ** 6)}
+    return {"kind": "grid", "b": b, "o": o, "t": t, "cart": rng.random() < 0.4, "f": rng.choice([0.5, 1.0, 2.0, 3.0]),
+            "T": round(rng.uniform(200, 300), 1) if strong else round(rng.uniform(200, 400), 1),
+            "D": float(f"{10 ** rng.uniform(-2, 1):.4g}"), "E": spec, "suffix": rng.random() < 0.5, "solver": None}
+
+
 def _grid_case(rng, thorough, **fix):
     cart = fix.get("cart", rng.random() < 0.45)
     nt = rng.choice([2, 2, 3, 4])
@@ -202,6 +268,10 @@ def cases(ctx):
     # always one energy set with differences between 50 and 500 kJ/mol (below the cap, far above RT) and cells beyond the cap
     yield _grid_case(rng, thorough, b=rng.choice(["1", "4"]), o=rng.choice(["ico_7", "cube3D_8", "randomS_9"]),
                      E={"mode": "capped", "sig": 30.0, "seed": rng.randrange(10 ** 6)}, solver=None)
+    # ramp energies: range over the grid far beyond 708*RT with all neighbouring differences below the cap
+    yield _ramp_case(rng, thorough, strong=True)
+    for _ in range(3 if ctx.quick else 30):
+        yield _ramp_case(rng, thorough)
     # ARPACK needs k < n-1: small grids exercise the k = n-2 branch of the harness, big ones k = 12
     for _ in range(12 if ctx.quick else 120):
         yield _grid_case(rng, thorough)
@@ -336,7 +406,7 @@ def _impl_grid(case):
             sub["quats"] = np.asarray(fg.b_rotations.get_grid_as_array(only_upper=True), dtype=float)
             out["sub"] = sub
             n = len(V)
-            E = _energies(case["E"], n)
+            E = _energies(case["E"], n, G=G, A=A)
             out["E"] = E
             try:
                 Q = SQRA(E, V, Dm, B).get_rate_matrix(case["D"], case["T"])
@@ -771,6 +841,18 @@ def oracle(ctx, case, out):
     Q = out["Q"]
     Qd = Q.toarray()
     off = ~np.eye(n, dtype=bool)
+    ramp = case["E"]["mode"] in RAMP_MODES
+    if ramp:
+        c_ = A.tocoo()
+        ctx.branch("ramp_energies:range>708*2RT" if (E.max() - E.min()) > 708 * 2 * R_GAS * case["T"] / 1000.0 else "ramp_energies:range<=708*2RT")
+        if c_.nnz and float(np.abs(E[c_.row] - E[c_.col]).max()) >= 500:
+            raise core.HarnessError(f"ramp generator produced neighbouring cells beyond the cap: {_short(case)}")
+    # (1c) every entry finite (energies whose neighbouring differences are below the cap, whatever their range and offset)
+    if not f11 and not np.all(np.isfinite(Qd)):
+        k = np.argwhere(~np.isfinite(Qd))[0]
+        ctx.fail("C14:finite", f"rate matrix has {int((~np.isfinite(Qd)).sum())} non-finite entries, e.g. Q[{k[0]},{k[1]}] = {Qd[k[0], k[1]]} "
+                 f"(energy range {E.max() - E.min():.6g} kJ/mol, E[{k[0]}] - E[{k[1]}] = {E[k[0]] - E[k[1]]:.6g})", _short(case))
+        return
     # (2) pattern = saved adjacency (pairs whose energy difference is beyond the cap are outside the property: the
     #     uncapped direction may underflow to an exact 0)
     pat = (Qd != 0) & off
@@ -826,6 +908,10 @@ def oracle(ctx, case, out):
     bad = _valid_hypotheses(sub)
     if bad:
         ctx.corr("hypothesis Valid." + bad[0], _short(case), bad[1], "holds for every input of pipeline_detailed_balance / pipeline_pattern")
+    if ramp:
+        # V*exp(-E/RT) is not representable over such a range: spectral clauses skipped, pairwise clauses above checked
+        ctx.branch("ramp_energies:spectral_clauses_skipped")
+        return
     if "ev" not in out and "eig_err" not in out:
         ctx.branch("no_decomposition(capped energies or n<4)")
         return
